@@ -221,3 +221,42 @@ def assembly_text_unmodified(ctx, rule):
                 bad.add("open(..., newline=...)")
     ctx.check(not bad and bool(runs), rule, "assembly route", ";".join(sorted(bad))[:200],
               "the listing's text reaches the parser as read in text mode (line ends translated), unmodified")
+
+
+def compile_sequence_equals_fresh(ctx, rule, cases):
+    """cases: (label, [doc, ..., last]): Yaml2Regex(<file>).produce_regex() for each document in turn, in ONE run
+    (one process: shared singleton, class attributes, module state); the outcome for the last document - the regex, or
+    the exception - must be the outcome of compiling the last document alone in a fresh run"""
+    import re as _re
+    from ..matchflow import load_file_summary
+    from ..models import make_interp
+    from ..values import NONE, Hole, Str
+    y2r = ctx.p.find_class("Yaml2Regex")
+    Ic = make_interp(ctx.p, {"Yaml2Regex.load_file": load_file_summary})
+
+    def outcomes(docs):
+        def thunk(I):
+            I.run.user["docs"] = {f"<P{k}>": d for k, d in enumerate(docs)}
+            r = NONE
+            for k in range(len(docs)):
+                try:
+                    y = I.construct(y2r, [Str((Hole(f"P{k}", "path", True),))], {}, None, None)
+                    r = I.call_func(y2r.find_method("produce_regex"), [], {}, y, None, None)
+                except Exception:
+                    if k == len(docs) - 1:
+                        raise          # only the last compilation's failure is the outcome
+            return r
+        out = set()
+        for p in Ic.explore(thunk):
+            txt = Ic.expr_of(p.value) if p.kind == "return" else f"{p.exc.type_name}"
+            out.add((p.kind, _re.sub(r"#\d+", "", txt).replace(f"P{len(docs) - 1}", "P0")))
+        return out
+    n = 0
+    for label, docs in cases:
+        fresh = outcomes([docs[-1]])
+        got = outcomes(docs)
+        diff = sorted(got ^ fresh)
+        n += 1
+        ctx.check(not diff and bool(fresh), rule, f"compilation [{label}]", (str(diff[0]) if diff else "no outcome")[:300],
+                  "a rule compiled after other rules in the same process gives what it gives compiled alone")
+    return n
